@@ -15,6 +15,11 @@ use std::sync::atomic::{AtomicU64, Ordering};
 use std::sync::{Arc, Mutex};
 
 pub fn run(args: &Args) {
+    // stream "containers" (and replay files holding its cases): operation histories on the containers of meta.rs
+    let container_replay = args.get("cases-in").map(|p| read_cases(p).first().map(crate::c13meta::is_container_case).unwrap_or(false)).unwrap_or(false);
+    if args.get("mode") == Some("containers") || container_replay {
+        return crate::c13meta::run(args);
+    }
     let args = args.clone();
     let progress = Arc::new(AtomicU64::new(0));
     let current = Arc::new(Mutex::new(String::new()));
